@@ -34,8 +34,8 @@ var c20Class = map[string][2]string{
 	"File.SetCellHyperLink":        {"pathLinkSet", "SplitCellName mergeCellsParser"},
 	"File.GetCellRichText":         {"pathRichGet", "mergeCellsParser CellNameToCoordinates getCell"},
 	"File.SetCellRichText":         {"pathPrepare", "prepareCell"},
-	"File.SetSheetRow":             {"unmodelled: setSheetCells (decode of the start cell, then typed setters)", ""},
-	"File.SetSheetCol":             {"unmodelled: setSheetCells (decode of the start cell, then typed setters)", ""},
+	"File.SetSheetRow":             {"RefOpts.optAccepts .sheetRow2 (setSheetCells: direct decode of the start cell, then typed setters)", "setSheetCells"},
+	"File.SetSheetCol":             {"setSheetCells as SetSheetRow (skeleton pinned; not exercised)", "setSheetCells"},
 	"File.AddChart":                {"pathDirect (skeleton pinned; not exercised by the paths op)", "CellNameToCoordinates"},
 	"File.DeleteChart":             {"pathDirect (skeleton pinned; not exercised by the paths op)", "CellNameToCoordinates"},
 	"File.GetColVisible":           {"Ref.columnNameToNumber (codec theorems; skeleton pinned; API not exercised)", "ColumnNameToNumber"},
@@ -58,17 +58,17 @@ var c20Class = map[string][2]string{
 	"File.AddPictureFromBytes":     {"pathDirect", "CellNameToCoordinates"},
 	"File.GetPictures":             {"pathDirect", "CellNameToCoordinates"},
 	"File.DeletePicture":           {"pathDirect (skeleton pinned; not exercised by the paths op)", "CellNameToCoordinates"},
-	"File.InsertPageBreak":         {"unmodelled", ""},
+	"File.InsertPageBreak":         {"RefOpts.optAccepts .pageBreak (direct decode)", "insertPageBreak"},
 	"File.RemovePageBreak":         {"pathDirect (skeleton pinned; not exercised by the paths op)", "CellNameToCoordinates"},
 	"File.SetSheetDimension":       {"Ref.rangeRefToCoordinates (decoder theorems; skeleton pinned; API not exercised)", "CellNameToCoordinates rangeRefToCoordinates"},
-	"File.AddIgnoredErrors":        {"unmodelled", ""},
+	"File.AddIgnoredErrors":        {"RefOpts.optAccepts .ignoredErrors: stored unvalidated (open finding)", ""},
 	"StreamWriter.SetRow":          {"unmodelled: stream writer (C11)", "CellNameToCoordinates CoordinatesToCellName"},
 	"StreamWriter.InsertPageBreak": {"unmodelled", ""},
 	"StreamWriter.MergeCell":       {"unmodelled: stream writer (C11)", "cellRefsToCoordinates"},
 	"File.GetCellStyle":            {"pathDirect", "CellNameToCoordinates getCell"},
 	"File.SetCellStyle":            {"pathDirect", "CellNameToCoordinates CellNameToCoordinates"},
 	"File.SetConditionalFormat":    {"unmodelled", ""},
-	"File.UnsetConditionalFormat":  {"unmodelled", ""},
+	"File.UnsetConditionalFormat":  {"RefOpts.cfUnsetFinds: raw string comparison with the stored reference (open finding)", ""},
 	"File.AutoFilter":              {"Ref.rangeRefToCoordinates (decoder theorems; skeleton pinned; API not exercised)", "rangeRefToCoordinates"},
 	"File.DeleteComment":           {"pathCommentDel", "CellNameToCoordinates CoordinatesToCellName deleteFormControl"},
 	"File.DeleteFormControl":       {"pathDirect (skeleton pinned; not exercised by the paths op)", "deleteFormControl"},
@@ -79,7 +79,7 @@ var c20Callees = map[string]bool{
 	"getCellStringFunc": true, "CellNameToCoordinates": true, "CoordinatesToCellName": true,
 	"rangeRefToCoordinates": true, "cellRefsToCoordinates": true, "getCell": true,
 	"addVMLObject": true, "deleteFormControl": true, "ColumnNameToNumber": true, "ColumnNumberToName": true,
-	"setCellIntFunc": true, "setCellTimeFunc": true, "setCellValueFunc": true, "setCellString": true, "addComment": true, "getCellFormula": true, "parseColRange": true,
+	"setCellIntFunc": true, "setCellTimeFunc": true, "setCellValueFunc": true, "setCellString": true, "addComment": true, "getCellFormula": true, "parseColRange": true, "insertPageBreak": true, "setSheetCells": true,
 }
 
 // receiver, function, expected skeleton (callees in source order, space separated), model path
@@ -114,6 +114,9 @@ var c20Expect = [][4]string{
 	{"File", "UnmergeCell", "rangeRefToCoordinates rangeRefToCoordinates", "mergeCellRef"},
 	{"File", "GetPictures", "CellNameToCoordinates", "pathDirect"},
 	{"File", "parseColRange", "ColumnNameToNumber ColumnNameToNumber", "RefMulti.parseColRange"},
+	{"xlsxWorksheet", "insertPageBreak", "CellNameToCoordinates", "RefOpts.optAccepts .pageBreak"},
+	{"File", "setSheetCells", "CellNameToCoordinates CoordinatesToCellName CoordinatesToCellName", "RefOpts.optAccepts .sheetRow2"},
+	{"File", "adjustRange", "rangeRefToCoordinates", "RefOpts.adjustRange"},
 }
 
 // function, source pattern (regular expression over the whitespace-squashed source; identifiers
@@ -124,6 +127,8 @@ var c20Patterns = [][3]string{
 	{"File", "MergeCell", `rangeRefToCoordinates\(\w+ \+ ":" \+ \w+\)`},
 	{"File", "UnmergeCell", `rangeRefToCoordinates\(\w+ \+ ":" \+ \w+\)`},
 	{"File", "parseColRange", `len\(\w+\) > 2`},
+	{"File", "adjustRange", `strings\.ReplaceAll\(\w+\[1\], "\$", ""\)`},
+	{"File", "UnsetConditionalFormat", `\.SQRef == \w+`},
 	{"File", "SetColWidth", `parseColRange\(\w+ \+ ":" \+ \w+\)`},
 }
 
@@ -203,6 +208,69 @@ func c20Discover() [][2]string {
 	return out
 }
 
+// exported option struct fields that hold a cell / range reference
+var c20RefField = regexp.MustCompile(`^(Cell|CellLink|Range|Sqref|SQRef|TopLeftCell|ActiveCell|Location|DataRange|PivotTableRange|RefersTo)$`)
+
+// Type.Field -> classification in the C20 path table (model definition, or why not modelled)
+var c20FieldClass = map[string]string{
+	"Comment.Cell":                      "pathCommentAdd (AddComment)",
+	"FormControl.Cell":                  "optAccepts .formCtl: direct decode (AddFormControl)",
+	"FormControl.CellLink":              "optAccepts .formLinkSpin / .formLinkCheck: decoded for scroll bar and spin button only, raw for a check box (open finding)",
+	"Shape.Cell":                        "optAccepts .shape: direct decode (AddShape)",
+	"SlicerOptions.Cell":                "optAccepts .slicer: direct decode (AddSlicer)",
+	"Table.Range":                       "optAccepts .table: rangeRefToCoordinates (AddTable)",
+	"PivotTableOptions.DataRange":       "optAccepts .pivotData: adjustRange (AddPivotTable; open finding: '$' anywhere)",
+	"PivotTableOptions.PivotTableRange": "optAccepts .pivotLoc: adjustRange (AddPivotTable; open finding: '$' anywhere)",
+	"DataValidation.Sqref":              "optAccepts .dvSqref: stored unvalidated (AddDataValidation; open finding)",
+	"SparklineOptions.Location":         "optAccepts .sparkLoc: stored unvalidated (AddSparkline; open finding)",
+	"SparklineOptions.Range":            "optAccepts .sparkRng: stored unvalidated (AddSparkline; open finding)",
+	"Panes.TopLeftCell":                 "optAccepts .panesTopLeft: stored unvalidated (SetPanes; open finding)",
+	"Selection.ActiveCell":              "optAccepts .panesActive: stored unvalidated (SetPanes; open finding)",
+	"Selection.SQRef":                   "optAccepts .panesSqref: stored unvalidated (SetPanes; open finding)",
+	"DefinedName.RefersTo":              "unmodelled: a formula, not parsed by SetDefinedName",
+}
+
+// c20DiscoverFields lists Type.Field for every exported struct type with a string / []string
+// field named like a reference.
+func c20DiscoverFields() []string {
+	var out []string
+	for _, f := range files {
+		for _, d := range f.Decls {
+			gd, ok := d.(*ast.GenDecl)
+			if !ok {
+				continue
+			}
+			for _, sp := range gd.Specs {
+				ts, ok := sp.(*ast.TypeSpec)
+				if !ok || !ts.Name.IsExported() {
+					continue
+				}
+				st, ok := ts.Type.(*ast.StructType)
+				if !ok {
+					continue
+				}
+				for _, fl := range st.Fields.List {
+					t := fl.Type
+					if at, ok := t.(*ast.ArrayType); ok {
+						t = at.Elt
+					}
+					id, ok := t.(*ast.Ident)
+					if !ok || id.Name != "string" {
+						continue
+					}
+					for _, nm := range fl.Names {
+						if c20RefField.MatchString(nm.Name) {
+							out = append(out, ts.Name.Name+"."+nm.Name)
+						}
+					}
+				}
+			}
+		}
+	}
+	sort.Strings(out)
+	return out
+}
+
 func c20Squash(s string) string { return strings.Join(strings.Fields(s), " ") }
 
 func init() {
@@ -260,6 +328,22 @@ func init() {
 				sep = ""
 			}
 			fmt.Fprintf(w, "  (%s, %s, %s)%s\n", leanStr(d[0]), leanStr(d[1]), leanStr(cls), sep)
+		}
+		w.WriteString("]\n\n")
+		w.WriteString("/-- every exported option struct field holding a cell / range reference: (Type.Field, classification) -/\n")
+		w.WriteString("def optionRefFields : List (String × String) := [\n")
+		fields := c20DiscoverFields()
+		for i, fl := range fields {
+			cls, ok := c20FieldClass[fl]
+			if !ok {
+				cls = "UNCLASSIFIED"
+				fail("exported option field %s holds a cell/range reference and is not in the C20 path table", fl)
+			}
+			sep := ","
+			if i == len(fields)-1 {
+				sep = ""
+			}
+			fmt.Fprintf(w, "  (%s, %s)%s\n", leanStr(fl), leanStr(cls), sep)
 		}
 		w.WriteString("]\n")
 	})
